@@ -203,6 +203,7 @@ def _build(case):
     cfg["nest"] = eff_nest(case)
     parser = sp.make_parser(cfg)
     parser.add_arguments(root, dest=case["dest"])
+    sp.decoy(cfg)   # a later parser with other settings must not change this parser's spelling
     return parser, root
 
 
@@ -213,6 +214,7 @@ def _parse(case, argv):
         u = Universe().add_classes(case["classes"])
         root = u.classes[case["root"]]
         sp.reset_globals()
+        sp.decoy({"dash": case["cfg"]["dash"], "gen": case["cfg"]["gen"], "nest": "WITHOUT_ROOT"})   # an earlier parser with other settings
         r = sp.run_outcome(lambda: simple_parsing.parse(
             root, args=argv, dest=case["dest"], add_option_string_dash_variants=sp.DASH[case["cfg"]["dash"]],
             argument_generation_mode=sp.GEN[case["cfg"]["gen"]]))
